@@ -18,6 +18,9 @@ TRUSTED = [
     'numpy cos/sin/arcsin (their values enter the grid model and the scene as recorded numbers)',
     'gcirc: the separation table is computed with the implementation\'s own gcirc (its geometric correctness is C18)',
     'numpy argsort returns a sorting permutation (checked per case inside Coq by is_sorting_perm)',
+    'translate/c05.py inline_aliases (round 6): a local name bound once per iteration to a pure expression over things the loop never assigns '
+    '(i1 = omatch1[s[i]]) is inlined before the maxmatch passes are compiled; the side conditions (bound once, read only after the binding, dead '
+    'outside such loops, operands never assigned, no call / slice) are checked syntactically',
     'Coq stdlib ZArith, QArith, Lists, Sorting (discrete theorems closed under the global context); Reals for the spherical geometry (classical axioms, listed by Print Assumptions)',
 ]
 ASSUMPTIONS = [
@@ -31,7 +34,9 @@ ASSUMPTIONS = [
     'matchlength 1 mas .. 150 deg (family `widecap`: beyond 90 deg), chunksize None or > matchlength',
     'pairs whose separation is within 1e-9 (relative) of the match length are not generated, except the exact-threshold family where '
     'L is set to a separation the implementation itself computed (the statement leaves sep == L open; the checker accepts both) and the `near` family',
-    'float32 coordinate arrays: numpy then builds the grid in single precision; the grid model compares with tolerance 1e-5 instead of 1e-9',
+    'float32 coordinate arrays (or a float32 matchlength / chunksize scalar): numpy then builds the grid in single precision; the grid model compares with tolerance 1e-5 instead of 1e-9',
+    'coordinates are 1-D numpy arrays of any layout / byte order / writeability (family `layout`); plain Python lists are outside (the code uses .size); '
+    'sizes: up to 60 x 60 points, family `crowd` up to 300 (thorough 520) partners of one point with maxmatch up to 1000',
 ]
 
 D2R = math.pi / 180.0
@@ -182,7 +187,8 @@ def gen_points(rng, fam, L):
     return p1[:60], p2[:60]
 
 
-FAMILIES = ['pairs', 'seam', 'pole', 'dups', 'allsky', 'smallchunk', 'polebound', 'highdec', 'dtype', 'arc', 'near', 'selfmatch', 'wrapped', 'widecap', 'threshold', 'edges', 'convex']
+FAMILIES = ['pairs', 'seam', 'pole', 'dups', 'allsky', 'smallchunk', 'polebound', 'highdec', 'dtype', 'arc', 'near', 'selfmatch', 'wrapped', 'widecap',
+            'wider', 'crowd', 'layout', 'argtype', 'threshold', 'edges', 'convex']
 
 
 def polebound_case(rng):
@@ -525,7 +531,219 @@ def widecap_case(rng):
                        'maxmatch': rng.choice([0, 0, 0, 1])})
 
 
+# --------------------------------------------------------------------------- round 6 families
+
+def wider_case(rng):
+    """list 1 = a compact field, list 2 = a wider catalogue: partners of the field's points interleaved with points above and
+    below the declination range of the chunk grid (inside the padding, just beyond it, many chunks beyond) and points beyond
+    its right-ascension range: getbounds() raises for the former and assign() must skip exactly those (error path)"""
+    L = pick_L(rng, 1.0 / 3600.0, 3.0)
+    chunk = pick_chunk(rng, L, small_ok=False)
+    cs = chunk if chunk is not None else max(4.0 * L, 0.1)
+    c = centre(rng, L, rng.choice(['any', 'any', 'seam', 'equator']))
+    c = (c[0], max(-60.0, min(60.0, c[1])))
+    spread = rng.choice([0.5, 2.0, 5.0, 12.0]) * L
+    p1 = [offset_point(c[0], c[1], rng.random() * spread, rng.uniform(0, 360)) for _ in range(rng.randint(3, 14))]
+    dlo, dhi = min(p[1] for p in p1), max(p[1] for p in p1)
+    inr = []
+    for a in p1:
+        if rng.random() < 0.8:
+            inr.append(offset_point(a[0], a[1], L * (1 + rng.choice([-1, 1]) * rng.choice([1e-3, 1e-1])), rng.uniform(0, 360)))
+        if rng.random() < 0.4:
+            inr.append(offset_point(a[0], a[1], L * rng.random(), rng.uniform(0, 360)))
+    if not inr:
+        inr.append(offset_point(p1[0][0], p1[0][1], 0.5 * L, 45.0))
+    out = []
+    cosd = max(math.cos(c[1] * D2R), 0.2)
+    for _ in range(rng.randint(2, 10)):
+        beyond = rng.choice([0.3, 0.9, 1.4, 1.6, 2.5, 4.0, 10.0, 30.0]) * cs
+        d = dhi + beyond if rng.random() < 0.5 else dlo - beyond
+        out.append((norm_ra(c[0] + rng.uniform(-3, 3) * cs), max(-89.9, min(89.9, d))))
+    for _ in range(rng.randint(0, 3)):
+        out.append((norm_ra(c[0] + rng.choice([-1.0, 1.0]) * rng.uniform(3.0, 40.0) * cs / cosd), rng.uniform(dlo, dhi)))
+    order = rng.choice(['outside-first', 'interleaved', 'shuffled'])
+    if order == 'outside-first':
+        p2 = out + inr
+    elif order == 'interleaved':
+        p2 = []
+        a, b = list(out), list(inr)
+        while a or b:
+            if a:
+                p2.append(a.pop(0))
+            if b:
+                p2.append(b.pop(0))
+    else:
+        p2 = out + inr
+        rng.shuffle(p2)
+    return limit_cost({'fam': 'wider', 'ra1': [p[0] for p in p1], 'dec1': [p[1] for p in p1], 'ra2': [p[0] for p in p2],
+                       'dec2': [p[1] for p in p2], 'L': L, 'chunksize': chunk, 'maxmatch': rng.choice([0, 0, 1, 2]), 'wider_order': order})
+
+
+CROWD_MAXMATCH = [127, 128, 129, 130, 200, 255, 256, 1000]
+
+
+def crowd_case(rng, thorough=False):
+    """sizes beyond a one-byte counter (class D): a point with more than 127 (thorough: also more than 255) partners within
+    the match length and maxmatch around 128 / 256 / far above; the crowd is the first or the second list.  The greedy
+    clauses of match_ok decide (no point more than maxmatch times, nothing unsaturated left out)"""
+    L = rng.choice([0.05, 0.5, 2.0])
+    c = centre(rng, L, 'any')
+    c = (c[0], max(-60.0, min(60.0, c[1])))
+    # cost in Coq ~ n1 * n2 * (number of returned pairs): the quick tier keeps the small side at 1 (list 2) or 2 (list 1) points
+    in1 = rng.random() < 0.5
+    if thorough:
+        nfew, m = rng.randint(2, 3), rng.choice([130, 180, 260, 300, 400, 520])
+    elif in1:
+        nfew, m = 1, rng.choice([130, 180, 260, 300])
+    else:
+        nfew, m = 2, rng.choice([130, 140, 180])
+    few = [offset_point(c[0], c[1], 0.1 * L * rng.random(), rng.uniform(0, 360)) for _ in range(nfew)]
+    crowd = [offset_point(c[0], c[1], L * rng.uniform(0.0, 0.8), rng.uniform(0, 360)) for _ in range(m)]
+    crowd += [offset_point(c[0], c[1], L * rng.uniform(1.15, 1.6), rng.uniform(0, 360)) for _ in range(rng.randint(0, 6))]
+    rng.shuffle(crowd)
+    mm = rng.choice(CROWD_MAXMATCH)
+    if in1:
+        p1, p2 = crowd, few[:rng.randint(1, len(few))]
+    else:
+        p1, p2 = few, crowd
+    return {'fam': 'crowd', 'ra1': [p[0] for p in p1], 'dec1': [p[1] for p in p1], 'ra2': [p[0] for p in p2], 'dec2': [p[1] for p in p2],
+            'L': L, 'chunksize': rng.choice([None, None, 4.0 * L, 10.0 * L]), 'maxmatch': mm, 'crowd_in': 'list1' if p1 is crowd else 'list2'}
+
+
+LAYOUTS = ['contig', 'strided', 'reversed', 'col2d', 'fortran-row', 'bigendian', 'readonly']
+
+
+def layout_case(rng):
+    """memory layout of the coordinate arrays (class B): every other element of a buffer, negative stride, a column of a 2-D
+    table, a row of a Fortran-ordered table, big-endian, read-only -- the same numbers, so the same answer"""
+    base = None
+    for _ in range(50):
+        base = gen_case(rng, rng.choice(['pairs', 'seam', 'dups', 'pole', 'dtype', 'wider']))
+        if admissible(base) and len(base['ra1']) <= 30:
+            break
+    c = dict(base)
+    c['layout'] = {k: rng.choice(LAYOUTS) for k in ('ra1', 'dec1', 'ra2', 'dec2')}
+    c['base_fam'] = base['fam']
+    c['fam'] = 'layout'
+    return c
+
+
+def argtype_case(rng):
+    """scalar arguments in other Python / NumPy types (class E): matchlength as int, numpy float64/float32/int64 scalar or 0-d
+    array; chunksize explicit None / int / numpy scalars; maxmatch as numpy integers of any width or bool"""
+    kL = rng.choice(['int', 'float64', 'float32', '0-d-float', 'int64', 'float'])
+    if kL in ('int', 'int64'):
+        L = float(rng.choice([1, 2, 3, 5]))
+    elif kL == 'float32':
+        L = rng.choice([0.5, 0.25, 2.0, 0.125, 1.5])
+    else:
+        L = pick_L(rng, 0.01, 10.0)
+    p1, p2 = gen_points(rng, rng.choice(['pairs', 'seam', 'dups']), L)
+    kc = rng.choice(['none', 'explicit-None', 'int', 'float64', 'float32', 'float', 'int64'])
+    if kc in ('none', 'explicit-None'):
+        chunk = None
+    elif kc in ('int', 'int64'):
+        chunk = float(math.ceil(4.0 * L) + rng.choice([0, 1, 5]))
+    elif kc == 'float32':
+        chunk = 4.0 * L * rng.choice([1.0, 2.0, 4.0]) if kL in ('int', 'int64', 'float32') else float(math.ceil(4.0 * L) + rng.choice([0, 1, 5]))
+    else:
+        chunk = pick_chunk(rng, L, small_ok=False)
+    km = rng.choice(['int', 'int64', 'int32', 'int16', 'int8', 'uint8', 'bool'])
+    mm = rng.choice([0, 1]) if km == 'bool' else rng.choice([0, 0, 1, 2, 3])
+    at = {'L': kL, 'maxmatch': km}
+    if kc != 'none':
+        at['chunksize'] = kc
+    case = limit_cost({'fam': 'argtype', 'ra1': [p[0] for p in p1], 'dec1': [p[1] for p in p1], 'ra2': [p[0] for p in p2],
+                       'dec2': [p[1] for p in p2], 'L': L, 'chunksize': chunk, 'maxmatch': mm, 'argtypes': at})
+    # limit_cost may have raised the chunk size: keep it a value the requested scalar type holds exactly
+    if case['chunksize'] is not None and kc in ('int', 'int64'):
+        case['chunksize'] = float(math.ceil(case['chunksize']))
+    elif case['chunksize'] is not None and kc == 'float32':
+        import struct
+        case['chunksize'] = struct.unpack('f', struct.pack('f', case['chunksize']))[0]
+    return case
+
+
+def partners(rng, ra1, dec1, L):
+    p2 = []
+    for a, d in zip(ra1, dec1):
+        if rng.random() < 0.7:
+            p2.append(offset_point(float(a), float(d), L * rng.choice([0.3, 0.9, 1.1, 0.6]), rng.uniform(0, 360)))
+    if not p2:
+        p2.append(offset_point(float(ra1[0]), float(dec1[0]), L * 0.5, 10.0))
+    return p2
+
+
+def inplace_history(rng):
+    """class A (round 6): the caller keeps its coordinate buffers and refills them in place between calls (`ra1[:] = ...`):
+    the very same array objects are passed again with other contents, with the same match length and chunk size (what a
+    cache would be keyed on) or with others.  Every call is judged on the contents the arrays then have"""
+    def small():
+        for _ in range(50):
+            c = gen_case(rng, rng.choice(['pairs', 'dups', 'seam', 'wider']))
+            if admissible(c) and 3 <= len(c['ra1']) <= 14 and len(c['ra2']) <= 14:
+                return c
+        return None
+    base = small()
+    if base is None:
+        return None
+    kind = rng.choice(['inplace-first-list', 'inplace-both-lists', 'inplace-second-list'])
+    h = [base]
+    for _ in range(rng.randint(1, 3)):
+        prev = h[-1]
+        c = dict(prev)
+        same_params = rng.random() < 0.6
+        n1, n2 = len(prev['ra1']), len(prev['ra2'])
+        if kind in ('inplace-first-list', 'inplace-both-lists'):
+            o = small()
+            if o is None or len(o['ra1']) < 2:
+                continue
+            t = rng.random()
+            if t < 0.3:          # the same points in another order
+                idx = list(range(n1))
+                rng.shuffle(idx)
+                c['ra1'], c['dec1'] = [prev['ra1'][i] for i in idx], [prev['dec1'][i] for i in idx]
+            elif t < 0.5:        # shifted by a fraction of a chunk (`ra1 += d`)
+                d = rng.choice([0.3, 1.0, 2.5]) * eff_chunk(prev) * rng.choice([-1.0, 1.0])
+                c['ra1'] = [norm_ra(x + d) for x in prev['ra1']]
+                c['dec1'] = [max(-89.9, min(89.9, x + 0.5 * d)) for x in prev['dec1']]
+            else:                # another field altogether
+                k = min(n1, len(o['ra1']))
+                c['ra1'] = (o['ra1'] + o['ra1'])[:n1] if k < n1 else o['ra1'][:n1]
+                c['dec1'] = (o['dec1'] + o['dec1'])[:n1] if k < n1 else o['dec1'][:n1]
+            if not same_params:
+                c['L'], c['chunksize'] = o['L'], o['chunksize']
+            p2 = partners(rng, c['ra1'], c['dec1'], c['L'])
+            if kind == 'inplace-both-lists':
+                p2 = (p2 + p2 + p2 + p2)[:n2] if len(p2) < n2 else p2[:n2]
+            c['ra2'], c['dec2'] = [p[0] for p in p2], [p[1] for p in p2]
+            c['reuse'] = 'first' if kind == 'inplace-first-list' else 'both'
+        else:
+            p2 = partners(rng, prev['ra1'], prev['dec1'], prev['L'])
+            p2 = (p2 + p2 + p2 + p2)[:n2] if len(p2) < n2 else p2[:n2]
+            c['ra2'], c['dec2'] = [p[0] for p in p2], [p[1] for p in p2]
+            c['reuse'] = 'second'
+        c['maxmatch'] = rng.choice([0, 0, 1, 2])
+        for k_ in ('dtype', 'layout', 'second'):
+            c.pop(k_, None)
+        h.append(limit_cost(c))
+    for k_ in ('dtype', 'layout', 'second'):
+        h[0].pop(k_, None)
+    for c in h:
+        c['history_kind'] = kind
+    h = [c for c in h if admissible(c)]
+    return h if len(h) >= 2 else None
+
+
 def gen_case(rng, fam):
+    if fam == 'wider':
+        return wider_case(rng)
+    if fam == 'crowd':
+        return crowd_case(rng)
+    if fam == 'layout':
+        return layout_case(rng)
+    if fam == 'argtype':
+        return argtype_case(rng)
     if fam == 'wrapped':
         return wrapped_case(rng)
     if fam == 'widecap':
@@ -768,7 +986,8 @@ def grid_term(case, res):
     # numpy (NEP 50) keeps single precision when a float32 array meets a Python float: with float32 list-1 coordinates
     # chunks.__init__ / rarange / wrapra work in single precision
     dt = case.get('dtype') or {}
-    tol = 'tol9' if not any(dt.get(k) == 'float32' for k in ('ra1', 'dec1', 'ra2', 'dec2')) else '(1 # 100000)'
+    single = any(dt.get(k) == 'float32' for k in ('ra1', 'dec1', 'ra2', 'dec2')) or 'float32' in (case.get('argtypes') or {}).values()
+    tol = 'tol9' if not single else '(1 # 100000)'
     return '(mkgrid %s %s %s %s %s %s %s %s %s %s %s %s %s %s %s %s %s)' % (
         ql(case['ra1']), ql(case['dec1']), ql(case['ra2']), chunk, qt(float(case['L'])), qt(rec['cos0']), ql(rec['cos']),
         qt(rec['minSize']), qt(rec['raOffset']), qt(rec['raMin']), qt(rec['raMax']), ql(rec['decBounds']),
@@ -875,6 +1094,7 @@ def check_histories(ctx, cc_header):
     the history, must satisfy match_ok for its own call; caller-owned inputs must be unchanged"""
     rng = ctx.rng
     hists = [h for h in (history_cases(rng) for _ in range(ctx.n(12, 200))) if h and len(h) >= 2]
+    hists += [h for h in (inplace_history(rng) for _ in range(ctx.n(12, 250))) if h and len(h) >= 2]
     hres = run_histories(hists)
     terms, where = [], []
     for hi, (h, rs) in enumerate(zip(hists, hres)):
@@ -902,7 +1122,8 @@ def check_histories(ctx, cc_header):
         bad += 1
         h, r = hists[hi], hres[hi][ci]
         overwritten = r.get('immediate') != r.get('ok')
-        sig = 'C04:history:%s' % ('result-overwritten-by-later-call' if overwritten else 'result-depends-on-earlier-calls')
+        sig = 'C04:history:%s' % ('result-overwritten-by-later-call' if overwritten else (
+            'stale-state-for-refilled-arrays' if r.get('reused') else 'result-depends-on-earlier-calls'))
         if sig in seen:
             continue
         seen.add(sig)
@@ -914,6 +1135,7 @@ def check_histories(ctx, cc_header):
                        'meaning': 'every call of the history is an admissible input on its own; match_ok (C04_match_ok_iff) is evaluated in Coq on '
                                   'the arrays the caller holds after the last call against the brute-force table of that call'}, True)
     ctx.coverage['histories'] = {'histories': len(hists), 'calls_checked_in_coq': len(terms), 'rejected': bad,
+                                 'calls_on_refilled_array_objects': sum(1 for rs in hres for r in rs if r.get('reused')),
                                  'kinds': sorted(set(h[0].get('history_kind') for h in hists))}
 
 
@@ -933,18 +1155,25 @@ def correspond(ctx, proof_ok=True):
     if not ok:
         raise RuntimeError('C04/Model.v / C04/SceneModel.v do not build:\n' + log[-2000:])
     rng = ctx.rng
-    n_per = ctx.n(34, 700)
+    n_per = ctx.n(32, 700)
+    # development aid: VERIF_FAMILIES=crowd,history restricts the run to the named families ('arc-screen', 'history',
+    # 'edges', 'convex', 'threshold' name the derived phases); unset (the normal case) = everything
+    only = set(x for x in os.environ.get('VERIF_FAMILIES', '').split(',') if x)
+    want = lambda f: not only or f in only      # noqa: E731
+    if only:
+        ctx.coverage['families_restricted_to'] = sorted(only)
     cases = []
     for fam in FAMILIES:
-        if fam in ('edges', 'threshold', 'convex'):
+        if fam in ('edges', 'threshold', 'convex') or not want(fam):
             continue
-        for _ in range({'smallchunk': ctx.n(60, 1200), 'polebound': ctx.n(8, 100), 'dtype': ctx.n(16, 300), 'arc': ctx.n(12, 300), 'near': ctx.n(16, 300), 'selfmatch': ctx.n(20, 300), 'wrapped': ctx.n(24, 400), 'widecap': ctx.n(24, 300)}.get(fam, n_per)):
-            c = gen_case(rng, fam)
+        for _ in range({'smallchunk': ctx.n(60, 1200), 'polebound': ctx.n(8, 100), 'dtype': ctx.n(16, 300), 'arc': ctx.n(12, 300), 'near': ctx.n(16, 300), 'selfmatch': ctx.n(20, 300), 'wrapped': ctx.n(24, 400), 'widecap': ctx.n(24, 300),
+                        'wider': ctx.n(12, 300), 'crowd': ctx.n(4, 60), 'layout': ctx.n(16, 400), 'argtype': ctx.n(14, 300)}.get(fam, n_per)):
+            c = gen_case(rng, fam) if fam != 'crowd' else crowd_case(rng, ctx.thorough)
             if admissible(c):
                 cases.append(c)
     # arcs straddling RA 0/360, screened in volume by an uncertified brute-force comparison inside the implementation
     # process; every suspicious case goes through the full recorded run and the Coq evaluation like any other case
-    arcs = [c for c in (arc_case(rng) for _ in range(ctx.n(3000, 60000))) if admissible(c)]
+    arcs = [c for c in (arc_case(rng) for _ in range(ctx.n(3000, 60000) if want('arc-screen') else 0)) if admissible(c)]
     arc_sus = screen_batch(arcs)
     cases += [arcs[k] for k in arc_sus[:8]]
     ctx.coverage['screened'] = {'arc_cases': len(arcs), 'arc_suspicious': len(arc_sus),
@@ -956,20 +1185,20 @@ def correspond(ctx, proof_ok=True):
     # second phase: edge placements and exact-threshold cases derived from the first runs
     extra = []
     for c, r in zip(cases, results):
-        if c['fam'] in ('pairs', 'seam', 'allsky', 'pole') and len(extra) < ctx.n(50, 1000):
+        if c['fam'] in ('pairs', 'seam', 'allsky', 'pole') and len(extra) < ctx.n(50, 1000) and want('edges'):
             e = edge_variant(rng, c, r)
             if e is not None and admissible(e):
                 extra.append(e)
     ncv = 0
     for c, r in zip(cases, results):
-        if c['fam'] in ('highdec', 'allsky', 'pole', 'polebound') and ncv < ctx.n(40, 800):
+        if c['fam'] in ('highdec', 'allsky', 'pole', 'polebound') and ncv < ctx.n(40, 800) and want('convex'):
             e = convex_variant(rng, c, r)
             if e is not None and admissible(e):
                 extra.append(e)
                 ncv += 1
     nthr = 0
     for c, r in zip(cases, results):
-        if nthr >= ctx.n(16, 200):
+        if nthr >= ctx.n(16, 200) or not want('threshold'):
             break
         if c['fam'] in ('pairs', 'dups') and 'ok' in r:
             vals = sorted(set(s for row in r['sep'] for s in row if 0.2 * c['L'] < s < 5 * c['L']))
@@ -1006,7 +1235,20 @@ def correspond(ctx, proof_ok=True):
         idx.append(n)
     size = [len(t) for t in terms]
     cc = C.CoqCases(ctx.work, HEADER2, 'run_fulls', shard=max(4, len(terms) // (3 * C.NPROC) + 1))
-    full = cc.run(terms)
+    # the `crowd` cases cost 5-40 s of Coq each: they are evaluated one per shard, started before (and running alongside) the others
+    heavy = [k for k, n in enumerate(idx) if cases[n]['fam'] == 'crowd']
+    light = [k for k in range(len(terms)) if cases[idx[k]]['fam'] != 'crowd']
+    from concurrent.futures import ThreadPoolExecutor
+    cch = C.CoqCases(ctx.work, HEADER2, 'run_fulls', shard=1)
+    with ThreadPoolExecutor(max_workers=1) as ex:
+        fut = ex.submit(cch.run, [terms[k] for k in heavy], 'heavy') if heavy else None
+        lv = cc.run([terms[k] for k in light]) if light else []
+        hv = fut.result() if fut else []
+    full = [None] * len(terms)
+    for k, v in zip(light, lv):
+        full[k] = v
+    for k, v in zip(heavy, hv):
+        full[k] = v
     verdicts = [v & 3 for v in full]
     scene_bits = [v >> 2 for v in full]
     ctx.coverage['coq_eval_s'] = round(cc.coq_seconds, 1)
@@ -1119,7 +1361,8 @@ def correspond(ctx, proof_ok=True):
                            'recorded': {k: results[n]['rec'].get(k) for k in ('minSize', 'raOffset', 'raMin', 'raMax', 'nDec', 'nRa', 'decBounds', 'cos0')}},
                           False)
             break
-    check_histories(ctx, HEADER)
+    if want('history'):
+        check_histories(ctx, HEADER)
     seen = set()
     for n, v in zip(idx, verdicts):
         if v == 0:
@@ -1128,7 +1371,8 @@ def correspond(ctx, proof_ok=True):
         dg = diagnose(c, r)
         if v & 2:
             what = 'missing-pair' if dg.get('missing') else ('extra-pair' if dg['extra'] else (
-                'wrong-distance' if dg['wrong_distance'] else ('unsorted' if dg['unsorted'] else ('duplicate' if dg['dup'] else 'greedy-rule'))))
+                'wrong-distance' if dg['wrong_distance'] else ('unsorted' if dg['unsorted'] else ('duplicate' if dg['dup'] else (
+                    'point-used-more-than-maxmatch-times' if dg.get('overused') else 'greedy-rule')))))
             sig = 'C04:%s:%s:property' % (what, sig_class(c))
             if sig in seen:
                 continue
